@@ -817,7 +817,7 @@ def evaluate_case(chk, c, answers, binary_result, run_result):
             j = json.loads(a)
             # function-level tie: _split_enum_case_values on this very text
             from compiler.back_end.cpp import header_generator as hg
-            real_split = hg._split_enum_case_values(kind[1])
+            real_split = call_real(hg._split_enum_case_values, kind[1])
             if j["cases"] != real_split:
                 viol("correspondence", "_split_enum_case_values vs Emboss.Enum.splitCases", real_split, j["cases"],
                      found=False, extra={"text": kind[1]})
@@ -863,8 +863,9 @@ def evaluate_case(chk, c, answers, binary_result, run_result):
         if answers:
             g = mj[i].get("gen")
             m_en = [n for n, _ in g["enumerators"]]
+            # `case` labels of a switch have no order; enumerators and the strcmp chain do (first hit wins)
             if [n for n, _ in p["enumerators"]] != m_en or [list(x) for x in p["from"]] != g["from"] or \
-                    [list(x) for x in p["to"]] != g["to"] or p["known"] != g["known"] or \
+                    sorted(list(x) for x in p["to"]) != sorted(g["to"]) or sorted(p["known"]) != sorted(g["known"]) or \
                     ("%sint%d" % ("" if p["signed"] else "u", p["bits"])) != g["ty"]:
                 # spec check on the header's lists decides whether the real code is wrong
                 bad = header_lists_vs_spec(p, spec)
@@ -1161,6 +1162,29 @@ def run_cases(chk, cases, model_ok, r, workers):
     return prepared
 
 
+class Raised:
+    """Result of a call into the code under test that raised."""
+
+    def __init__(self, e):
+        self.e = repr(e)
+
+    def __eq__(self, other):
+        return False
+
+    def __repr__(self):
+        return "raised " + self.e
+
+    def replace(self, *a):
+        return self
+
+
+def call_real(fn, *args):
+    try:
+        return fn(*args)
+    except Exception as e:  # noqa: BLE001
+        return Raised(e)
+
+
 def function_level(chk, model_ok, r, n):
     """Direct function-level tie of the pure helpers (no compile): split, camel, type, render."""
     from compiler.back_end.cpp import header_generator as hg
@@ -1172,18 +1196,18 @@ def function_level(chk, model_ok, r, n):
     for i in range(n):
         s = "".join(r.choice(toks) for _ in range(r.randint(0, 7)))
         ops.append("SPLIT " + json.dumps(s))
-        want.append(("split", s, hg._split_enum_case_values(s)))
+        want.append(("split", s, call_real(hg._split_enum_case_values, s)))
     names = ["A_1B", "A1B", "A__B", "A_", "A__", "AB", "A_B", "THREE_WORD_ENUM", "X9_9X", "Z_0_", "ABC123_45DEF"]
     bad = set()
     for i in range(n):
         names.append(gen_shouty(r, [], bad))
     for s in names:
         ops.append("CAMEL " + json.dumps(s))
-        want.append(("camel", s, name_conversion.convert_case("SHOUTY_CASE", "CamelCase", s)))
+        want.append(("camel", s, call_real(name_conversion.convert_case, "SHOUTY_CASE", "CamelCase", s)))
     for mb in list(range(1, 65)):
         for sg in (0, 1):
             ops.append("TYPE %d %d" % (mb, sg))
-            t = hg._cpp_integer_type_for_enum(mb, bool(sg))
+            t = call_real(hg._cpp_integer_type_for_enum, mb, bool(sg))
             want.append(("type", (mb, sg), t.replace("::std::", "").replace("_t", "")))
     vals = set()
     for k in range(0, 65):
@@ -1203,11 +1227,19 @@ def function_level(chk, model_ok, r, n):
     got = common.Model("model_c19").ask(ops)
     for (kind, arg, w), a in zip(want, got):
         chk.count()
+        if isinstance(w, Raised):
+            chk.violation("input", {"input": arg, "what": "%s helper raised an exception" % kind, "observed": repr(w),
+                                    "expected": "model: " + a})
+            continue
         if kind == "split":
             j = json.loads(a)
             errs = []
             attr = _fake_attr(arg)
-            hg._verify_enum_case_attribute(attr, "m.emb", errs)
+            rr = call_real(hg._verify_enum_case_attribute, attr, "m.emb", errs)
+            if isinstance(rr, Raised):
+                chk.violation("input", {"input": arg, "what": "_verify_enum_case_attribute raised an exception",
+                                        "observed": repr(rr), "expected": "model: " + a})
+                continue
             if j["cases"] != w or j["ok"] != (not errs):
                 chk.violation("correspondence", {"theorem_or_correspondence": "_split_enum_case_values/_verify_enum_case_attribute vs model",
                                                  "input": arg, "model": j, "observed": [w, [e[0].message for e in errs]]},
@@ -1268,18 +1300,30 @@ def function_level_spec_only(chk, r):
     from compiler.util import name_conversion
     for s in ["A_1B", "A1B", "AB", "A_B", "THREE_WORD_ENUM", "X9_9X"] + [gen_shouty(r, [], set()) for _ in range(200)]:
         chk.count()
-        w = name_conversion.convert_case("SHOUTY_CASE", "kCamelCase", s)
+        w = call_real(name_conversion.convert_case, "SHOUTY_CASE", "kCamelCase", s)
         if w != spec_kcamel(s):
             chk.violation("input", {"input": s, "what": "kCamelCase spelling", "expected": spec_kcamel(s), "observed": w})
     for mb in range(1, 65):
         for sg in (False, True):
-            t = hg._cpp_integer_type_for_enum(mb, sg)
-            if int(re.sub(r"\D", "", t)) != spec_type_bits(mb) or ("uint" in t) == sg:
+            t = call_real(hg._cpp_integer_type_for_enum, mb, sg)
+            if isinstance(t, Raised) or int(re.sub(r"\D", "", t)) != spec_type_bits(mb) or ("uint" in t) == sg:
                 chk.violation("input", {"input": [mb, sg], "what": "_cpp_integer_type_for_enum", "observed": t,
                                         "expected": "smallest of 8/16/32/64 >= maximum_bits, declared signedness"})
 
 
 def run(tier):
+    """A bug in this harness is an infrastructure failure (exit 2), never a pass or a violation."""
+    import subprocess
+    import traceback
+    try:
+        return _run(tier)
+    except (common.InfraError, subprocess.TimeoutExpired):
+        raise
+    except Exception:  # noqa: BLE001
+        raise common.InfraError("harness exception:\n" + traceback.format_exc())
+
+
+def _run(tier):
     chk = common.Check(PROP, tier, exes=["model_c19"])
     chk.cov["rule"] = ("one evaluation = one observation compared (a name lookup, a value lookup, a field read/write, a "
                        "literal, a helper-function call) or one module compiled; non-trivial = distinct by enum shape "
